@@ -359,8 +359,10 @@ def get_first_body_node_loc(body):
     if not body:
         return None
 
-    if type(body[0]) in (FunctionDef, ClassDef) and body[0].decorator_list:  # type: ignore[attr-defined]
-        return body[0].decorator_list[0].lineno, body[0].col_offset  # type: ignore[attr-defined]
+    # a decorated def (async too) or class starts at its first decorator, not at its keyword
+    decorators = getattr(body[0], 'decorator_list', None)
+    if decorators:
+        return decorators[0].lineno, body[0].col_offset
 
     for n in body:
         if n.col_offset >= 0:
